@@ -45,6 +45,9 @@ structure St where
   satbFrom : Nat := 0
   /-- ids that must be valid objects after FinalMark (filled at FinalMark, checked by `ismo` / `islive`) -/
   mustLive : Array Bool := #[]
+  /-- reach(shadow) and number of objects at the last pause (satb mode) -/
+  pauseReach : Array Bool := #[]
+  pauseObjs : Nat := 0
 
 def sortNat (l : List Nat) : List Nat := l.mergeSort (fun a b => decide (a ≤ b))
 
@@ -87,6 +90,10 @@ def ext (st : St) (pre : Driver.GCMon.St) (op res : List String) : St × String 
   let st := if paused && !st.satb then
       let nursery := st.generational && (match op with | ["gc", _, "0"] => true | _ => false)
       onPause st pre.heap nursery
+    else if paused && op.head? != some "snap" then
+      -- C12: remember what was reachable when the pause happened; a pause outside a marking cycle owes nothing
+      { st with pauseReach := reach pre.heap, pauseObjs := pre.heap.objs.size,
+                mustLive := if st.marking then st.mustLive else #[] }
     else st
   -- re-apply the op's own shadow effect on top of the cleared referents (alloc / write happen after the pause)
   match op with
@@ -179,7 +186,30 @@ def ext (st : St) (pre : Driver.GCMon.St) (op res : List String) : St × String 
         (st, viol "gc:referent-mismatch" s!"id={i} referent={" ".intercalate res} model={wantS} registered={registered}")
       else (st, "ok")
     | none => (st, "ok")
+  | ["satb", kind] =>
+    -- C12: pause kinds as the runner read them from the event log (synthetic pair, not an hx_gc op)
+    if kind == "initial" then
+      ({ st with marking := true, satbSet := st.pauseReach, satbFrom := st.pauseObjs, mustLive := #[] }, "ok")
+    else if kind == "final" then
+      if st.marking then
+        -- `satb_complete` + `alloc_during_marking_survives`: the snapshot's reachable objects and everything
+        -- allocated since InitialMark are marked, hence not reclaimed by this cycle
+        let ml := (Array.range st.pauseObjs).map fun i => st.satbSet.getD i false || decide (st.satbFrom ≤ i)
+        ({ st with marking := false, mustLive := ml }, "ok")
+      else (st, viol "gc:satb-protocol" "FinalMark without a preceding InitialMark")
+    else ({ st with marking := false, mustLive := #[] }, "ok")
   | ["ismo", a] =>
+    if st.satb then
+      match num? a with
+      | some a =>
+        match st.g.lastRef.findIdx? (· == a) with
+        | some i =>
+          if a != 0 && st.mustLive.getD i false && res != [toString i] then
+            (st, viol "gc:satb-lost" s!"id={i} at {a} was reachable at InitialMark or allocated during marking, after FinalMark is_mmtk_object answers {" ".intercalate res}")
+          else (st, "ok")
+        | none => (st, "ok")
+      | none => (st, "ok")
+    else
     -- C06: an object the model keeps alive (ready for finalization / retained / resurrected) at a known, fixed
     -- address is still a valid object
     match num? a with
